@@ -121,7 +121,9 @@ def validateBody (p : Params) (outs : List OutDef) (b : Blk) (insVals : Nat) : O
   else if cutThroughViolation b then some "Block:Transaction:CutThrough"
   else if lockViolation b then some "Block:KernelLockHeight"
   else if nrdEraViolation b then some "Block:NRDKernelPreHF3"
-  else if coinbaseMismatch p outs b then some "Block:CoinbaseSumMismatch"
+  else if coinbaseMismatch p outs b then
+    -- no coinbase kernel at all: summing an empty list of excesses is a secp error
+    some (if (b.kers.filter (· == .cb)).length = 0 then "Block:Secp" else "Block:CoinbaseSumMismatch")
   else if valueMismatch p outs b insVals then some "Block:KernelSumMismatch"
   else hasTag b "ksum:"
 
